@@ -616,8 +616,10 @@ def main():
             "wall_s": round(wall, 2),
             "violations": violations,
         }
-        os.makedirs(os.path.join(VERIF, "evidence"), exist_ok=True)
-        with open(os.path.join(VERIF, "evidence", f"{pid}.json"), "w", encoding="utf-8") as f:
+        # experiments against another checkout (a seeded worktree) never touch the committed evidence
+        evdir = os.path.join(VERIF, "evidence") if REPO == "/repo" else os.path.join(CACHE, "evidence-shadow")
+        os.makedirs(evdir, exist_ok=True)
+        with open(os.path.join(evdir, f"{pid}.json"), "w", encoding="utf-8") as f:
             json.dump(ev, f, indent=1, ensure_ascii=False)
             f.write("\n")
     for l in lines:
